@@ -4,7 +4,6 @@ Invariants of the generator-aggregator model (`CoclsModel/Aggregator.lean`), par
 (queue ↔ source states, the active-source counter, where the aggregator can be parked, the destructor drain).
 Every lemma quantifies over all configurations (`Cfg`: any number of sources, any scripts) and all states.
 -/
-set_option maxHeartbeats 1000000
 namespace Cocls.Agg
 
 def active : SSt → Bool
